@@ -338,6 +338,84 @@ def walk_no_nested(fn: ast.AST) -> Iterator[ast.AST]:
         stack.extend(ast.iter_child_nodes(n))
 
 
+def inline_tail_helpers(fn: ast.AST, methods: Dict[str, ast.AST], all_methods: Optional[Dict[str, ast.AST]] = None, depth: int = 2) -> Tuple[ast.AST, List[str]]:
+    """A view of method `fn` in which every statement `return self.<helper>()` (no arguments; `<helper>` a private method of the same class
+    that nothing else calls) is replaced by the helper's body - "extract method" undone.  Only the nodes on the way to the replaced statement are
+    shallow copies; every other node is the original, so parent maps and positions stay valid.  Returns (view, names of the helpers inlined)."""
+    import copy
+    inlined: List[str] = []
+    others = all_methods if all_methods is not None else methods
+    me = fn.args.args[0].arg if getattr(fn, 'args', None) and fn.args.args else 'self'      # type: ignore[attr-defined]
+
+    def callers_elsewhere(name: str) -> bool:
+        for q, f in others.items():
+            if f is fn or q == name:
+                continue
+            for c in ast.walk(f):
+                if isinstance(c, ast.Attribute) and c.attr == name and isinstance(c.value, ast.Name) and c.value.id == me:
+                    return True
+        return False
+
+    def helper_of(st: ast.stmt) -> Optional[ast.AST]:
+        if isinstance(st, ast.Return) and isinstance(st.value, ast.Call) and not st.value.args and not st.value.keywords and isinstance(st.value.func, ast.Attribute) \
+                and isinstance(st.value.func.value, ast.Name) and st.value.func.value.id == me:
+            h = methods.get(st.value.func.attr)
+            if h is not None and h is not fn and st.value.func.attr.startswith('_') and not st.value.func.attr.startswith('__') and len(h.args.args) == 1 \
+                    and not h.decorator_list and not callers_elsewhere(st.value.func.attr):      # type: ignore[attr-defined]
+                return h
+        return None
+
+    def body_of(h: ast.AST) -> List[ast.stmt]:
+        return [b for b in h.body if not (isinstance(b, ast.Expr) and isinstance(b.value, ast.Constant))]      # type: ignore[attr-defined]
+
+    def rebuild(stmts: List[ast.stmt], d: int) -> Tuple[List[ast.stmt], bool]:
+        out: List[ast.stmt] = []
+        changed = False
+        for st in stmts:
+            h = helper_of(st) if d > 0 else None
+            if h is not None:
+                inlined.append(st.value.func.attr)      # type: ignore[attr-defined]
+                sub, _ = rebuild(body_of(h), d - 1)
+                out += sub
+                changed = True
+                continue
+            new_st = st
+            for field in ('body', 'orelse', 'finalbody'):
+                blk = getattr(st, field, None)
+                if isinstance(blk, list) and blk and isinstance(blk[0], ast.stmt):
+                    nb, ch = rebuild(blk, d)
+                    if ch:
+                        if new_st is st:
+                            new_st = copy.copy(st)
+                        setattr(new_st, field, nb)
+                        changed = True
+            if isinstance(st, ast.Try):
+                hs = []
+                hch = False
+                for hd in st.handlers:
+                    nb, ch = rebuild(hd.body, d)
+                    if ch:
+                        hd2 = copy.copy(hd)
+                        hd2.body = nb
+                        hs.append(hd2)
+                        hch = True
+                    else:
+                        hs.append(hd)
+                if hch:
+                    if new_st is st:
+                        new_st = copy.copy(st)
+                    new_st.handlers = hs      # type: ignore[attr-defined]
+                    changed = True
+            out.append(new_st)
+        return out, changed
+    nb, ch = rebuild(list(fn.body), depth)      # type: ignore[attr-defined]
+    if not ch:
+        return fn, []
+    view = copy.copy(fn)
+    view.body = nb      # type: ignore[attr-defined]
+    return view, inlined
+
+
 def calls_in(node: ast.AST, nested: bool = True) -> Iterator[ast.Call]:
     it = ast.walk(node) if nested else walk_no_nested(node)
     for n in it:
